@@ -814,3 +814,166 @@ class AxMonitor:
         if error != (e1 | e2):
             return "error=%d, expected %d (write expiry %d, read expiry %d; timeout %d)" % (error, e1 | e2, e1, e2, self.t)
         return None
+
+
+# ---------------------------------------------------------------------------------------------------------
+# Witnesses of the known findings, replayed on the real code (`probes` in props/c11.py).
+# Each returns (still_fails, text).  The oracle is the property: a pending request must be terminated (ack /
+# forced SLVERR response) within the configured number of cycles plus the constant protocol latency.
+
+def _build_ax(full, kind, n, k, t, dw=32, sh=4):
+    I = axi_full.AXIInterface if full else axi_lite.AXILiteInterface
+    ms = [I(data_width=dw, address_width=sh + 2) for _ in range(n)]
+    ss = [I(data_width=dw, address_width=sh + 2) for _ in range(k)]
+    ash = (dw // 8).bit_length() - 1
+    slaves = [((lambda a, j=j: a[sh - ash:] == j), s) for j, s in enumerate(ss)]
+    cls = {(False, "shared"): axi_lite.AXILiteInterconnectShared, (False, "xbar"): axi_lite.AXILiteCrossbar,
+           (True, "shared"): axi_full.AXIInterconnectShared, (True, "xbar"): axi_full.AXICrossbar}[(full, kind)]
+    return cls(ms, slaves, timeout_cycles=t), ms, ss
+
+
+def wb_silent_slave_latency(kind, t, cycles, unmapped=False):
+    """1 master x 1 slave, slave never acks (or the address matches no slave): cycle of the ack, or None."""
+    inst = WbSharedInst(1, 1, t, kind=kind)
+    n = inst.netlist
+    adr = (1 << inst.sh) if unmapped else 0
+    for c in range(cycles):
+        inst.apply((1, 1, adr, 0, 0, 0))
+        outs = inst.sample()
+        if outs[3]:
+            return c
+        n.tick()
+    return None
+
+
+def ax_silent_slave_latency(full, kind, t, cycles, unmapped=False):
+    """1 master x 1 slave, the slave never raises a ready/valid; a protocol-following master issues one write and
+    one read.  Returns (cycle of the B handshake or None, cycle of the R handshake or None)."""
+    m, ms, ss = _build_ax(full, kind, 1, 1, t)
+    n = LazyNetlist(m)
+    p = ms[0]
+    adr = (1 << 4) if unmapped else 0
+    st = dict(aw=1, w=1, ar=1)
+    done = dict(b=None, r=None)
+    n.set(p.aw.addr, adr)
+    n.set(p.ar.addr, adr)
+    n.set(p.b.ready, 1)
+    n.set(p.r.ready, 1)
+    for c in range(cycles):
+        n.set(p.aw.valid, st["aw"])
+        n.set(p.w.valid, st["w"])
+        n.set(p.ar.valid, st["ar"])
+        n.settle()
+        if st["aw"] and n.getu(p.aw.ready):
+            st["aw"] = 0
+        if st["w"] and n.getu(p.w.ready):
+            st["w"] = 0
+        if st["ar"] and n.getu(p.ar.ready):
+            st["ar"] = 0
+        if done["b"] is None and n.getu(p.b.valid):
+            done["b"] = c
+        if done["r"] is None and n.getu(p.r.valid):
+            done["r"] = c
+        n.tick()
+    return done["b"], done["r"]
+
+
+def probe_crossbar(t=4, cycles=40):
+    """C11-crossbar-timeout-ignored: the three crossbars with timeout_cycles=t and a silent slave."""
+    hung = []
+    lat = wb_silent_slave_latency("xbar", t, cycles)
+    if lat is None:
+        hung.append("wishbone.Crossbar: no ack in %d cycles" % cycles)
+    for full in (False, True):
+        b, r = ax_silent_slave_latency(full, "xbar", t, cycles)
+        if b is None or r is None:
+            hung.append("%s: no %s in %d cycles" % ("AXICrossbar" if full else "AXILiteCrossbar",
+                                                   "/".join(x for x, v in (("B", b), ("R", r)) if v is None), cycles))
+    ref = wb_silent_slave_latency("shared", t, cycles)
+    return bool(hung), "timeout_cycles=%d, 1x1, silent slave: %s (InterconnectShared: ack in cycle %s)" % (
+        t, "; ".join(hung) if hung else "all three crossbars terminate", ref)
+
+
+def probe_response_phase(t=3, cycles=200):
+    """C11-axi-response-phase-unwatched: the slave accepts AW+W / AR at once and never answers."""
+    hung = []
+    for full in (False, True):
+        m, ms, ss = _build_ax(full, "shared", 2, 1, t)
+        n = LazyNetlist(m)
+        p, q, s = ms[0], ms[1], ss[0]
+        for sig in (s.aw.ready, s.w.ready, s.ar.ready, p.b.ready, p.r.ready, q.b.ready, q.r.ready):
+            n.set(sig, 1)
+        st = dict(aw=1, w=1, ar=1)
+        seen = dict(b=None, r=None, err=None, other=None)
+        for c in range(cycles):
+            n.set(p.aw.valid, st["aw"])
+            n.set(p.w.valid, st["w"])
+            n.set(p.ar.valid, st["ar"])
+            n.set(q.ar.valid, 1 if c > 2 * t else 0)          # a second master wants the bus later on
+            if full:
+                n.set(p.w.last, 1)
+            n.settle()
+            for key, sig in (("aw", p.aw.ready), ("w", p.w.ready), ("ar", p.ar.ready)):
+                if st[key] and n.getu(sig):
+                    st[key] = 0
+            for key, sig in (("b", p.b.valid), ("r", p.r.valid), ("err", m.timeout.error), ("other", q.r.valid)):
+                if seen[key] is None and n.getu(sig):
+                    seen[key] = c
+            n.tick()
+        if seen["b"] is None or seen["r"] is None:
+            hung.append("%s: address/data accepted in cycle 0, then no B/R/error in %d cycles (second master's read "
+                        "%s)" % ("AXIInterconnectShared" if full else "AXILiteInterconnectShared", cycles,
+                                 "blocked too" if seen["other"] is None else "served"))
+    return bool(hung), "timeout_cycles=%d: %s" % (t, "; ".join(hung) if hung else "response phase is timed out")
+
+
+def probe_stale_response(t=3):
+    """C11-axi-stale-late-response: a slow slave takes AW/W (AR) in the RESPOND cycle and answers after the forced
+    response; the master's next transaction receives that old response."""
+    stale = []
+    for full in (False, True):
+        m, ms, ss = _build_ax(full, "shared", 1, 1, t)
+        n = LazyNetlist(m)
+        p, s = ms[0], ss[0]
+        ph = "idle"
+        log = []               # (cycle, resp) of the B responses the master received
+        pend = []              # cycles at which the slave will answer the writes it accepted
+        slave_answers = []     # cycles at which the slave's own B was taken
+        for c in range(40):
+            if c in (0, 12) and ph == "idle":
+                ph = "aww"
+            n.set(p.aw.valid, int(ph in ("aww", "aw")))
+            n.set(p.w.valid, int(ph in ("aww", "w")))
+            n.set(p.b.ready, int(ph == "b"))
+            if full:
+                n.set(p.w.last, 1)
+            rdy = int(c >= t + 1)                 # slave wakes up in the RESPOND cycle
+            n.set(s.aw.ready, rdy)
+            n.set(s.w.ready, rdy)
+            bv = int(bool(pend) and pend[0] <= c)
+            n.set(s.b.valid, bv)
+            n.set(s.b.resp, 0)
+            n.settle()
+            if n.getu(s.aw.valid) and rdy:
+                pend.append(c + 6)
+            if bv and n.getu(s.b.ready):
+                slave_answers.append(c)
+                pend.pop(0)
+            a, w = n.getu(p.aw.ready), n.getu(p.w.ready)
+            if ph == "aww":
+                ph = "b" if a and w else ("w" if a else ("aw" if w else "aww"))
+            elif ph == "aw" and a:
+                ph = "b"
+            elif ph == "w" and w:
+                ph = "b"
+            elif ph == "b" and n.getu(p.b.valid):
+                log.append((c, n.getu(p.b.resp)))
+                ph = "idle"
+            n.tick()
+        # write #2 is accepted by the slave in cycle 12 and answered by it 6 cycles later
+        if len(log) >= 2 and log[0][1] == 2 and log[1][0] < 12 + 6:
+            stale.append("%s: write#1 forced SLVERR in cycle %d, write#2 (issued cycle 12, slave answers it in cycle 18) "
+                         "completes in cycle %d with write#1's late response" % (
+                             "AXIInterconnectShared" if full else "AXILiteInterconnectShared", log[0][0], log[1][0]))
+    return bool(stale), "timeout_cycles=%d, slave ready from cycle %d, answers 6 cycles after AW: %s" % (
+        t, t + 1, "; ".join(stale) if stale else "no stale response delivered")
